@@ -43,6 +43,7 @@ ASSUMPTIONS = [
     'copy.deepcopy is a faithful clone of a table (spot-checked by '
     're-executing sampled sequences from scratch)',
 ]
+ANCHORS = ['Table.filter', 'Table.update_ids', 'Table._index_ids', 'errcheck', 'Table.merge', 'Table.concat', 'Table.collapse', 'Table.partition', 'Table.subsample', 'Table.transform']
 REQUIRED = ['steps', 'earlier_tables_rechecked', 'refused_then_checked', 'oracle_runs', 'invariant_evaluations',
             'absent_id_probes', 'stale_id_probes', 'layout_csc_seen',
             'layout_unsorted_seen', 'empty_table_states', 'io_steps',
